@@ -296,6 +296,10 @@ pub fn handle_op(max_size: u32, bad: u32, fancy: u32) -> BoxedStrategy<Op> {
         1 => slot.clone().prop_map(|slot| Op::HLen { slot }),
         1 => slot.clone().prop_map(|slot| Op::HPos { slot }),
         1 => slot.clone().prop_map(|slot| Op::HReadToEnd { slot }),
+        2 => (slot.clone(), data_strategy(max_size), any::<u16>(), any::<u16>()).prop_map(|(slot, data, a, b)| Op::HWriteV { slot, data, a, b }),
+        1 => (slot.clone(), n.clone(), n.clone()).prop_map(|(slot, n1, n2)| Op::HReadV { slot, n1, n2 }),
+        1 => (slot.clone(), any::<u8>()).prop_map(|(slot, byte)| Op::HReadUntil { slot, byte }),
+        1 => slot.clone().prop_map(|slot| Op::HRewind { slot }),
         2 => slot.prop_map(|slot| Op::HClose { slot }),
     ]
     .boxed()
